@@ -72,20 +72,87 @@ impl C07 {
 	}
 }
 
-fn slp_cut(out: &mut CaseOut, name: &str, bytes: &[u8], n: usize, skip: bool, hash: bool, sub: u64) {
+enum SlpOutcome {
+	Rejected(String),
+	Accepted(usize),
+	Panic(String, String),
+	Spin,
+}
+
+/// One truncated .slp read through the instrumented source (so that a loop
+/// polling at EOF is broken and reported instead of blocking the worker).
+fn slp_cut_run(data: &Arc<Vec<u8>>, skip: bool, hash: bool) -> SlpOutcome {
+	let src = crate::iofault::Src::new(data.clone(), crate::iofault::Policy::Whole);
+	let stats = src.stats();
+	let r = common::slp_read_src(src, skip, hash);
+	if stats.spun() {
+		return SlpOutcome::Spin;
+	}
+	match r {
+		Err(Fail::Err(e)) => SlpOutcome::Rejected(e),
+		Ok(g) => SlpOutcome::Accepted(g.frames.id.len()),
+		Err(Fail::Panic(p)) => SlpOutcome::Panic(p.loc, p.msg),
+	}
+}
+
+fn slp_cut_judge(out: &mut CaseOut, name: &str, total: usize, prefix: &[u8], n: usize, skip: bool, hash: bool, sub: u64, o: SlpOutcome) {
 	out.evals += 1;
-	match common::slp_read(&bytes[..n], skip, hash) {
-		Err(Fail::Err(e)) => {
+	match o {
+		SlpOutcome::Rejected(e) => {
 			out.count("slp_prefix_rejected", 1);
 			out.observe("slp_error_messages", norm_msg(&e));
 		}
-		Ok(g) => out.violate_sub(
-			sub,
-			format!("slp-prefix-accepted;skip={}", skip),
-			format!("[{}] cut at {} of {} (skip={} hash={}): read returned Ok with {} frames instead of an error", name, n, bytes.len(), skip, hash, g.frames.id.len()),
-			Some(&bytes[..n]),
-		),
-		Err(Fail::Panic(p)) => out.violate_sub(sub, format!("panic;{};{}", norm_loc(&p.loc), norm_msg(&p.msg)), format!("[{}] cut at {} of {} (skip={}): panic at {}: {}", name, n, bytes.len(), skip, p.loc, p.msg), Some(&bytes[..n])),
+		SlpOutcome::Accepted(rows) => out.violate_sub(sub, format!("slp-prefix-accepted;skip={}", skip), format!("[{}] cut at {} of {} (skip={} hash={}): read returned Ok with {} frames instead of an error", name, n, total, skip, hash, rows), Some(prefix)),
+		SlpOutcome::Panic(loc, msg) => out.violate_sub(sub, format!("panic;{};{}", norm_loc(&loc), norm_msg(&msg)), format!("[{}] cut at {} of {} (skip={}): panic at {}: {}", name, n, total, skip, loc, msg), Some(prefix)),
+		SlpOutcome::Spin => out.violate_sub(sub, format!("slp-prefix-eof-spin;skip={};hash={}", skip, hash), format!("[{}] cut at {} of {} (skip={} hash={}): the reader keeps polling the exhausted source (> {} reads at EOF) instead of failing", name, n, total, skip, hash, crate::iofault::EOF_POLL_LIMIT), Some(prefix)),
+	}
+}
+
+/// All given cuts of one .slp on a supervised thread; the cut index is the
+/// progress measure for the hang rules.
+fn slp_cuts(out: &mut CaseOut, ctx: &Ctx, name: &str, bytes: &[u8], cuts: Vec<(usize, bool, bool)>) {
+	let cur = Arc::new(AtomicUsize::new(0));
+	let cur2 = cur.clone();
+	let data = bytes.to_vec();
+	let only = ctx.only_sub;
+	let cuts2 = cuts.clone();
+	let w = watched(
+		move || {
+			let mut res = vec![];
+			for (k, (n, skip, hash)) in cuts2.iter().enumerate() {
+				if only.map_or(false, |s| s != *n as u64) {
+					continue;
+				}
+				cur2.store(k, Relaxed);
+				let d = Arc::new(data[..*n].to_vec());
+				res.push((k, slp_cut_run(&d, *skip, *hash)));
+			}
+			res
+		},
+		{
+			let c = cur.clone();
+			move || c.load(Relaxed)
+		},
+		Duration::from_secs(6),
+		Duration::from_secs(900),
+	);
+	match w {
+		Watched::Done(res) => {
+			for (k, o) in res {
+				let (n, skip, hash) = cuts[k];
+				slp_cut_judge(out, name, bytes.len(), &bytes[..n], n, skip, hash, n as u64, o);
+			}
+		}
+		Watched::Sleeping(e) | Watched::Spinning(e) => {
+			let (n, skip, hash) = cuts[cur.load(Relaxed).min(cuts.len() - 1)];
+			out.evals += 1;
+			out.violate_sub(n as u64, format!("slp-prefix-hang;skip={};hash={}", skip, hash), format!("[{}] cut at {} of {} (skip={} hash={}): read does not return: {}", name, n, bytes.len(), skip, hash, e), Some(&bytes[..n]));
+			out.abandon_worker = true;
+		}
+		Watched::Timeout(e) => {
+			out.inconclusive.push(format!("[{}] near cut {}: {}", name, cuts[cur.load(Relaxed).min(cuts.len() - 1)].0, e));
+			out.abandon_worker = true;
+		}
 	}
 }
 
@@ -164,11 +231,10 @@ impl Monitor for C07 {
 		if idx < n_slp {
 			let seed = &self.seeds[idx / 4];
 			let (skip, hash) = ((idx % 4) >= 2, idx % 2 == 1);
-			for n in 0..seed.bytes.len() {
-				if !ctx.mark(n as u64) {
-					continue;
-				}
-				slp_cut(&mut out, &seed.name, &seed.bytes, n, skip, hash, n as u64);
+			ctx.mark(0);
+			slp_cuts(&mut out, ctx, &seed.name, &seed.bytes, (0..seed.bytes.len()).map(|n| (n, skip, hash)).collect());
+			if out.abandon_worker {
+				return out;
 			}
 			out.class(format!("slp|skip={}|hash={}|all-offsets", skip, hash));
 			out.class(format!("slp|v{}.{}", seed.model.version.0, seed.model.version.1));
@@ -294,12 +360,8 @@ impl Monitor for C07 {
 			offs.sort();
 			offs.dedup();
 			offs.retain(|o| *o < m.consumed);
-			for (k, n) in offs.iter().enumerate() {
-				if !ctx.mark(*n as u64) {
-					continue;
-				}
-				slp_cut(&mut out, fname, fbytes, *n, k % 2 == 1, k % 4 >= 2, *n as u64);
-			}
+			ctx.mark(0);
+			slp_cuts(&mut out, ctx, fname, fbytes, offs.iter().enumerate().map(|(k, n)| (*n, k % 2 == 1, k % 4 >= 2)).collect());
 			out.class("slp|fixture|boundary-offsets".to_string());
 			out.sample = Some(json!({"case": idx, "file": fname, "format": "slp", "offsets": offs.len()}));
 		} else {
